@@ -64,6 +64,32 @@ func (m *monC05) PostCall(s *Sim, c *Call) {
 			}
 		}
 	}
+	// C15 "nodes selected earlier that are still valid are kept" - also against a status written onto a
+	// newer version of the object than the reconcile had read (the optimistic lock is what protects
+	// the selection of a fresher reconcile from a stale one): judged on what the write replaced.
+	if t.Ctrl == CtrlEDS && pre.Status.Canary != nil && post.Status.Canary != nil && pre.Status.Canary.ReplicaSet == post.Status.Canary.ReplicaSet && post.Spec.Strategy.Canary != nil {
+		if v := t.View(); v.EDS != nil && v.EDS.ResourceVersion != pre.ResourceVersion {
+			s.Stats.NonVacuous["C15.write-on-newer-version"]++
+			kept := map[string]bool{}
+			for _, n := range post.Status.Canary.Nodes {
+				kept[n] = true
+			}
+			var sel labels.Selector = labels.Everything()
+			if ns := post.Spec.Strategy.Canary.NodeSelector; ns != nil {
+				if x, err := metav1.LabelSelectorAsSelector(ns); err == nil {
+					sel = x
+				}
+			}
+			up := s.Store.GetERS(post.Namespace, post.Status.Canary.ReplicaSet)
+			for _, n := range pre.Status.Canary.Nodes {
+				node := s.Store.GetNode(n)
+				if kept[n] || node == nil || up == nil || !sel.Matches(labels.Set(node.Labels)) || !eligibleSpec(node, &up.Spec.Template.Spec) {
+					continue
+				}
+				s.Violate("C15", "stable", "stale-write", "%s: its status write landed on a newer version of the object (read %s, replaced %s) and dropped canary node %s, which is still valid", t.Label(), v.EDS.ResourceVersion, pre.ResourceVersion, n)
+			}
+		}
+	}
 	x, y := pre.Status.ActiveReplicaSet, post.Status.ActiveReplicaSet
 	if x == y || t.Ctrl != CtrlEDS {
 		if x != y && t.Ctrl != CtrlEDS {
